@@ -3,7 +3,7 @@
    Power cut after the k-th state-changing command = the tag has executed the first k WRITE commands of the
    write (firstn k) and nothing else; the observer is a fresh reader of that memory. *)
 From Coq Require Import ZArith List Bool.
-From NV Require Import Base.Result Base.Bytes Model.TlvMem Model.T2T Proofs.TlvLib Proofs.T2TCut.
+From NV Require Import Base.Result Base.Bytes Model.TlvMem Model.T2T Model.T1T Proofs.TlvLib Proofs.TlvPhases Proofs.T2TCut Proofs.T1T.
 Import ListNotations.
 Open Scope Z_scope.
 
@@ -43,3 +43,37 @@ Example C02_t2_nonvacuous :
   length (snd (t2_write ex_cut_mem ex_cut_new)) = 80%nat /\
   t2_fresh (apply_ws ex_cut_mem (firstn 79 (snd (t2_write ex_cut_mem ex_cut_new)))) = Msg [].
 Proof. repeat split; vm_compute; try reflexivity; discriminate. Qed.
+
+(* ---------------------------------------------------------------- Type 1.
+   tt1.py commits the 3-byte length field in one synchronize, in ascending block order, so FF becomes visible before
+   the two length bytes when they lie in the next block.  The repair used for tt2.py cannot be applied without
+   changing tests/test_tag_tt1.py (test_write_to_dynamic_memory pins exactly that command order), therefore the model
+   is the code as it is: refutation witness + the theorem under the guard that excludes that input class
+   (three length bytes that do not share one write unit with each other). *)
+Definition ex_t1_cut_mem : list Z :=
+  [1;2;3;4;5;6;7;0; 225;16;63;0] ++ repeat 0 10 ++ [3;40] ++ map Z.of_nat (seq 0 40) ++ [254] ++ repeat 0 447.
+Definition ex_t1_cut_new : list Z := map (fun i => Z.of_nat i mod 251 + 1) (seq 0 300).
+Theorem C02_t1_cut_refuted :
+  t1_wf_layout 18 ex_t1_cut_mem /\ t1_capacity 18 ex_t1_cut_mem = Some 462 /\ len ex_t1_cut_new <= 462 /\
+  exists x, t1_fresh 18 (apply_ws ex_t1_cut_mem (firstn 40 (snd (t1_write 18 ex_t1_cut_mem ex_t1_cut_new)))) = Msg x /\
+            len x = 1 /\ Msg x <> t1_fresh 18 ex_t1_cut_mem /\ x <> ex_t1_cut_new.
+Proof.
+  split; [vm_compute; reflexivity|]. split; [vm_compute; reflexivity|]. split; [vm_compute; discriminate|].
+  eexists. split; [vm_compute; reflexivity|]. split; [vm_compute; reflexivity|].
+  split; [vm_compute; discriminate | vm_compute; discriminate].
+Qed.
+Print Assumptions C02_t1_cut_refuted.
+
+(* one_unit u off: the bytes off+1 .. off+3 lie in the same write unit (u = 8 for dynamic memory, 1 for static memory) *)
+Theorem C02_t1_cut_safe_guarded : forall hr0 m d cap L, t1_wf_layout hr0 m -> t1_capacity hr0 m = Some cap -> len d <= cap ->
+  t1_layout hr0 m = Some L -> (len d < 255 \/ one_unit (t1_unit hr0) (l_off L)) -> forall k,
+  let mk := apply_ws m (firstn k (snd (t1_write hr0 m d))) in
+  t1_fresh hr0 mk = t1_fresh hr0 m \/ t1_fresh hr0 mk = Msg [] \/ t1_fresh hr0 mk = Msg d.
+Proof. exact t1_cut_safe. Qed.
+Print Assumptions C02_t1_cut_safe_guarded.
+
+Example C02_t1_nonvacuous :
+  t1_wf_layout 18 ex_t1_cut_mem /\ (exists L, t1_layout 18 ex_t1_cut_mem = Some L /\ l_off L = 22) /\
+  length (snd (t1_write 18 ex_t1_cut_mem [1;2;3])) = 3%nat /\
+  t1_fresh 18 (apply_ws ex_t1_cut_mem (firstn 2 (snd (t1_write 18 ex_t1_cut_mem [1;2;3])))) = Msg [].
+Proof. split; [vm_compute; reflexivity|]. split; [eexists; split; vm_compute; reflexivity|]. split; vm_compute; reflexivity. Qed.
